@@ -2693,7 +2693,9 @@ class HasTraits(CHasTraits, metaclass=MetaHasTraits):
                     del dic[key]
 
                     if len(dic) == 0:
-                        del info[trait_name]
+                        # The weakref callback of a collected partner may
+                        # already have removed the entry.
+                        info.pop(trait_name, None)
                         self._on_trait_change(
                             self._sync_trait_modified, trait_name, remove=True
                         )
@@ -2737,6 +2739,9 @@ class HasTraits(CHasTraits, metaclass=MetaHasTraits):
                         self._sync_trait_items_modified, trait_name + "_items"
                     )
             dic[key] = value
+            # The weakref callback of a collected partner may have dropped
+            # the (then empty) entry since it was fetched.
+            info[trait_name] = dic
             setattr(object, alias, getattr(self, trait_name))
 
         if mutual:
@@ -2752,19 +2757,25 @@ class HasTraits(CHasTraits, metaclass=MetaHasTraits):
 
     def _sync_trait_modified(self, object, name, old, new):
         info = self.__sync_trait__
-        if name not in info:
+        partners = info.get(name)
+        if partners is None:
             return
         locked = info[""]
         locked[name] = None
-        for object, object_name in info[name].values():
-            object = object()
-            if object_name not in object._get_sync_trait_info()[""]:
-                try:
-                    setattr(object, object_name, new)
-                except:
-                    pass
-
-        del locked[name]
+        try:
+            # A partner may be garbage collected (and its entry removed by the
+            # weakref callback) at any point while the values are forwarded.
+            for object, object_name in list(partners.values()):
+                object = object()
+                if object is None:
+                    continue
+                if object_name not in object._get_sync_trait_info()[""]:
+                    try:
+                        setattr(object, object_name, new)
+                    except:
+                        pass
+        finally:
+            del locked[name]
 
     def _sync_trait_items_modified(self, object, name, old, event):
         index = event.index
@@ -2772,24 +2783,28 @@ class HasTraits(CHasTraits, metaclass=MetaHasTraits):
             index = slice(index, index + len(event.removed))
         name = name[:-6]
         info = self.__sync_trait__
-        if name not in info:
+        partners = info.get(name)
+        if partners is None:
             # All partners have been garbage collected.
             return
         locked = info[""]
         locked[name] = None
-        for object, object_name in info[name].values():
-            object = object()
-            if object_name not in object._get_sync_trait_info()[""]:
-                try:
-                    if event.added or index.step is None:
-                        getattr(object, object_name)[index] = event.added
-                    else:
-                        # Items deleted through an extended slice.
-                        del getattr(object, object_name)[index]
-                except:
-                    pass
-
-        del locked[name]
+        try:
+            for object, object_name in list(partners.values()):
+                object = object()
+                if object is None:
+                    continue
+                if object_name not in object._get_sync_trait_info()[""]:
+                    try:
+                        if event.added or index.step is None:
+                            getattr(object, object_name)[index] = event.added
+                        else:
+                            # Items deleted through an extended slice.
+                            del getattr(object, object_name)[index]
+                    except:
+                        pass
+        finally:
+            del locked[name]
 
     def _is_list_trait(self, trait_name):
         handler = self.base_trait(trait_name).handler
